@@ -600,7 +600,10 @@ vector<Graph::NodeId> GlobalGraph::getAllInnerNodes() const
 
 void GlobalGraph::fillListOfLeaves_(const GlobalGraph::Node& startingNode, vector<GlobalGraph::Node>& foundLeaves, const GlobalGraph::Node& originNode, unsigned int maxRecursions) const
 {
-  const vector<Graph::NodeId> neighbors = getNeighbors(startingNode);
+  // distinct neighbors: getNeighbors lists a neighbor once per direction
+  // (every neighbor twice in an undirected graph, twice for A->B plus B->A)
+  const vector<Graph::NodeId> allNeighbors = getNeighbors(startingNode);
+  const set<Graph::NodeId> neighbors(allNeighbors.begin(), allNeighbors.end());
   if (neighbors.size() > 1)
   {
     if (maxRecursions > 0)
